@@ -334,7 +334,7 @@ def c03_step(kw):
 
 
 WRAPPERS = ("prune_taxa_with_labels", "retain_taxa", "retain_taxa_with_labels")
-BUDGET = dict(quick=240, thorough=1000)
+BUDGET = dict(quick=240, thorough=900)
 
 STEP2_OPS = ["reseed_at", "reroot_at_edge", "to_outgroup_position", "prune_subtree", "prune_taxa",
              "collapse_basal_bifurcation", "edge_collapse", "resolve_polytomies",
